@@ -27,17 +27,19 @@ are copied shallowly), `deepClone_sharing_cell_fails` (a mutable cell reached tw
 `deepClone_foreign_code_fails` (a closure moved to an unrelated VM keeps pointing at the source
 VM's bytecode). `…_fixed` theorems show the repaired rules restore the statement.
 
-NOT proved in general: that the copy is ISOMORPHIC to the source graph (sharing and cycles
-preserved: the `visited` map). Full statement:
-  `deepClone s dst dst rgen true v = some (s', r) → ∃ φ, φ v = r ∧ ∀ copied x with object o,
-     (s'.obj (φ x)).edges = o.edges.map φ ∧ φ injective on the copied objects`.
-It is checked on every generated case by the exact correspondence (the model's result graph,
-including its sharing structure, must equal the real one) and by the model-independent
-isomorphism oracle; `deepClone_iso_examples` are kernel-checked instances (shared sub-value,
-cycle).
+* `deepClone_iso`        the copy is ISOMORPHIC to the source graph: the `visited` map is a bijection
+                         between copied source objects and new objects commuting with edges,
+                         identity on shared objects (for the repaired cloner, and for the code as
+                         it is whenever no mutable cell is copied); `deepClone_iso_covers`;
+* `deepClone_total`      the fuel of the executable cloner always suffices (same hypotheses).
+Still open: totality for the UNREPAIRED cell rule with cells below the value (a cell is copied
+without a `visited` entry, so termination needs "no cycle through cells only", which the real code
+needs as well — it would overflow the native stack).
 -/
 import GluonModel.GcHeap
 import GluonModel.Proofs.GcHeap
+import GluonModel.Proofs.GcIso
+import GluonModel.Proofs.GcCloneTotal
 
 namespace GluonModel.Props.C13
 open GluonModel.GcHeap
@@ -47,7 +49,7 @@ open GluonModel.GcHeap
 theorem deepClone_complete {s0 s' : State} {dst thr : HeapId} {rgen : Option Nat} {fixed : Bool}
     {Rel : Nat → Prop} (ctx : CloneCtx s0 dst rgen fixed Rel) {v r : Nat} (hv : Rel v)
     (h : deepClone s0 dst thr rgen fixed v = some (s', r)) :
-    OKo s' dst r ∧ Ext s0 s' ∧ ∀ n, s0.next ≤ n → n < s'.next → Fin s' dst thr n :=
+    OKo s' dst r ∧ Ext s0 s' ∧ ∀ n, s0.next ≤ n → n < s'.next → Fin fixed s' dst thr n :=
   let ⟨_, h2, h3, h4⟩ := deepClone_post ctx hv h
   ⟨h3, h2, h4⟩
 
@@ -95,6 +97,49 @@ theorem transfer_survives {s s' : State} {t : HeapId} {r : Nat} (hwf : WF s) (hi
     (hc : collect s t = some s') {p : Nat} {op : Obj} (hp : Reach s (fun x => x = r) p)
     (hop : s.obj p = some op) : s'.obj p = some op :=
   held_value_survives hwf hinv hh hg ht hroot hc hp hop
+
+/-- **Isomorphism** (`deepClone_iso`): the copy is isomorphic to the source graph below the value —
+    sharing and cycles preserved. With `φ := phi s0 rgen vis` (the final `visited` map; identity
+    on objects shared by the generation shortcut and on bytecode): the result is `φ v0`; `vis` is
+    a BIJECTION between the copied source objects and the objects the clone allocated
+    (injective, onto `[s0.next, s'.next)`); for every pair `x ↦ n` the new object `n` is owned by
+    `dst`, has the kind of `x` and its out-edges are exactly the `φ`-images of the out-edges of
+    `x` (φ commutes with edges); nothing that existed is modified. Hypotheses: `CloneCtx` (as for
+    `deepClone_complete`) and every copied mutable cell goes through `visited` (the repaired
+    cloner, or no cell is copied — for the code as it is, `deepClone_sharing_cell_fails` below shows
+    the statement is false for a cell reached twice). -/
+theorem deepClone_iso {s0 s' : State} {dst thr : HeapId} {rgen : Option Nat} {fixed : Bool}
+    {Rel : Nat → Prop} (ctx : CloneCtx s0 dst rgen fixed Rel)
+    (hcell : ∀ v o, Rel v → s0.obj v = some o → shareable s0 rgen v = false → o.kind = .cell →
+      fixed = true)
+    {v0 r : Nat} (hv : Rel v0) (h : deepClone s0 dst thr rgen fixed v0 = some (s', r)) :
+    ∃ vis : List (Nat × Nat),
+      r = phi s0 rgen vis v0 ∧ Resolved s0 rgen vis v0 ∧
+      (∀ x n, lookupVis vis x = some n →
+        Rel x ∧ s0.next ≤ n ∧ n < s'.next ∧
+        ∃ ox on, s0.obj x = some ox ∧ s'.obj n = some on ∧ on.kind = ox.kind ∧ on.owner = dst ∧
+          on.edges = ox.edges.map (phi s0 rgen vis) ∧ ∀ e ∈ ox.edges, Resolved s0 rgen vis e) ∧
+      (∀ x y n, lookupVis vis x = some n → lookupVis vis y = some n → x = y) ∧
+      (∀ n, s0.next ≤ n → n < s'.next → ∃ x, lookupVis vis x = some n) ∧
+      Ext s0 s' :=
+  deepClone_iso' ctx hcell hv h
+
+/-- …and the bijection covers everything the cloner enters: every object reachable from the value
+    through copied objects is shared, bytecode, or has its copy. -/
+theorem deepClone_iso_covers {s0 : State} {rgen : Option Nat} {vis : List (Nat × Nat)} {v0 : Nat}
+    (h0 : Resolved s0 rgen vis v0)
+    (hent : ∀ x n, lookupVis vis x = some n → ∃ ox, s0.obj x = some ox ∧
+      ∀ e ∈ ox.edges, Resolved s0 rgen vis e)
+    {p : Nat} (hp : Copied s0 rgen v0 p) : Resolved s0 rgen vis p :=
+  copied_resolved h0 hent hp
+
+/-- **Totality**: the fuel of the executable cloner always suffices — `deepClone` returns `none`
+    only as a genuine refusal (an uncloneable userdata or a thread below the value). Same
+    hypotheses as `deepClone_iso` plus "nothing uncloneable below the value". -/
+theorem deepClone_total {s0 : State} {dst thr : HeapId} {rgen : Option Nat} {fixed : Bool}
+    {Rel : Nat → Prop} (T : TotalCtx s0 dst rgen fixed Rel) {v : Nat} (hv : Rel v) :
+    ∃ s' r, deepClone s0 dst thr rgen fixed v = some (s', r) :=
+  deepClone_total' T hv
 
 /-! ### Witnesses -/
 
